@@ -7,6 +7,7 @@ import Mathlib.Tactic.FieldSimp
 import Mathlib.Tactic.LinearCombination
 import Mathlib.Tactic.Linarith
 import Mathlib.Tactic.Positivity
+import Mathlib.Analysis.SpecialFunctions.Trigonometric.Inverse
 
 namespace PorepyVerif.C32
 open V3 M3
@@ -250,5 +251,144 @@ theorem cross_dot_of_perp (m a b w : V3) (hm : normSq m ≠ 0)
   rcases mul_eq_zero.mp this with h | h
   · exact absurd h hm
   · exact h
+
+/-! ### vectors and matrices over an arbitrary field (statements with square roots / trigonometry) -/
+
+structure V3F (K : Type) where
+  x : K
+  y : K
+  z : K
+
+structure M3F (K : Type) where
+  a11 : K
+  a12 : K
+  a13 : K
+  a21 : K
+  a22 : K
+  a23 : K
+  a31 : K
+  a32 : K
+  a33 : K
+
+theorem V3F.ext' {K : Type} {a b : V3F K} (hx : a.x = b.x) (hy : a.y = b.y) (hz : a.z = b.z) : a = b := by
+  cases a; cases b; simp_all
+
+theorem M3F.ext' {K : Type} {A B : M3F K}
+    (h11 : A.a11 = B.a11) (h12 : A.a12 = B.a12) (h13 : A.a13 = B.a13)
+    (h21 : A.a21 = B.a21) (h22 : A.a22 = B.a22) (h23 : A.a23 = B.a23)
+    (h31 : A.a31 = B.a31) (h32 : A.a32 = B.a32) (h33 : A.a33 = B.a33) : A = B := by
+  cases A; cases B; simp_all
+
+section field
+variable {K : Type} [Field K]
+
+namespace V3F
+def smul (k : K) (a : V3F K) : V3F K := ⟨k * a.x, k * a.y, k * a.z⟩
+def sub (a b : V3F K) : V3F K := ⟨a.x - b.x, a.y - b.y, a.z - b.z⟩
+def add (a b : V3F K) : V3F K := ⟨a.x + b.x, a.y + b.y, a.z + b.z⟩
+def dot (a b : V3F K) : K := a.x * b.x + a.y * b.y + a.z * b.z
+def cross (a b : V3F K) : V3F K := ⟨a.y * b.z - a.z * b.y, a.z * b.x - a.x * b.z, a.x * b.y - a.y * b.x⟩
+def normSq (a : V3F K) : K := dot a a
+end V3F
+
+namespace M3F
+def id : M3F K := ⟨1, 0, 0, 0, 1, 0, 0, 0, 1⟩
+def add (A B : M3F K) : M3F K :=
+  ⟨A.a11 + B.a11, A.a12 + B.a12, A.a13 + B.a13,
+   A.a21 + B.a21, A.a22 + B.a22, A.a23 + B.a23,
+   A.a31 + B.a31, A.a32 + B.a32, A.a33 + B.a33⟩
+def smul (k : K) (A : M3F K) : M3F K :=
+  ⟨k * A.a11, k * A.a12, k * A.a13, k * A.a21, k * A.a22, k * A.a23, k * A.a31, k * A.a32, k * A.a33⟩
+def mul (A B : M3F K) : M3F K :=
+  ⟨A.a11 * B.a11 + A.a12 * B.a21 + A.a13 * B.a31,
+   A.a11 * B.a12 + A.a12 * B.a22 + A.a13 * B.a32,
+   A.a11 * B.a13 + A.a12 * B.a23 + A.a13 * B.a33,
+   A.a21 * B.a11 + A.a22 * B.a21 + A.a23 * B.a31,
+   A.a21 * B.a12 + A.a22 * B.a22 + A.a23 * B.a32,
+   A.a21 * B.a13 + A.a22 * B.a23 + A.a23 * B.a33,
+   A.a31 * B.a11 + A.a32 * B.a21 + A.a33 * B.a31,
+   A.a31 * B.a12 + A.a32 * B.a22 + A.a33 * B.a32,
+   A.a31 * B.a13 + A.a32 * B.a23 + A.a33 * B.a33⟩
+def skew (v : V3F K) : M3F K := ⟨0, -v.z, v.y, v.z, 0, -v.x, -v.y, v.x, 0⟩
+end M3F
+
+/-- `I + a W + b W²`, `W = skew v`, with the products spelled out as `np.linalg.matrix_power(W, 2)` -/
+def quadF (a b : K) (v : V3F K) : M3F K :=
+  M3F.add (M3F.add M3F.id (M3F.smul a (M3F.skew v))) (M3F.smul b (M3F.mul (M3F.skew v) (M3F.skew v)))
+
+theorem quadF_scale (a b k : K) (v : V3F K) :
+    quadF a b (V3F.smul k v) = quadF (a * k) (b * k * k) v := by
+  apply M3F.ext' <;> simp only [quadF, M3F.add, M3F.smul, M3F.mul, M3F.id, M3F.skew, V3F.smul] <;> ring
+
+end field
+
+/-- the rational model embedded in ℝ -/
+def castV (v : V3) : V3F ℝ := ⟨(v.x : ℝ), (v.y : ℝ), (v.z : ℝ)⟩
+def castM (A : M3) : M3F ℝ :=
+  ⟨(A.a11 : ℝ), (A.a12 : ℝ), (A.a13 : ℝ), (A.a21 : ℝ), (A.a22 : ℝ), (A.a23 : ℝ),
+   (A.a31 : ℝ), (A.a32 : ℝ), (A.a33 : ℝ)⟩
+
+/-- `rotation_matrix(a, vect)` AS CODED, over ℝ (after its `allclose` test):
+    `vect = vect / np.linalg.norm(vect)`, `W = [vect]×`, `I + sin a · W + (1 − cos a) · W²`. -/
+noncomputable def rotationMatrixCoded (a : ℝ) (vect : V3F ℝ) : M3F ℝ :=
+  let w := V3F.smul (1 / Real.sqrt (V3F.normSq vect)) vect
+  M3F.add (M3F.add M3F.id (M3F.smul (Real.sin a) (M3F.skew w)))
+    (M3F.smul (1 - Real.cos a) (M3F.mul (M3F.skew w) (M3F.skew w)))
+
+
+/-! ### Gram–Schmidt of `_construct_local_basis` (3-D) over a field with a square root -/
+
+section gs
+variable {K : Type} [Field K]
+
+/-- `sq` is a square root at `x` -/
+def IsSqrtAt (sq : K → K) (x : K) : Prop := sq x * sq x = x
+
+/-- `v / np.linalg.norm(v)` with `‖v‖ = sq (‖v‖²)` -/
+def unitF (sq : K → K) (v : V3F K) : V3F K := V3F.smul (1 / sq (V3F.normSq v)) v
+
+/-- first tangent before normalisation when the maximal direction of the normal is `i` and the
+    normal is not aligned with that axis: `t[a] = −n[b]`, `t[b] = n[a]` for the other directions -/
+def gsTangent1 (i : Fin 3) (n : V3F K) : V3F K :=
+  match i with
+  | 0 => ⟨0, -n.z, n.y⟩
+  | 1 => ⟨-n.z, 0, n.x⟩
+  | 2 => ⟨-n.y, n.x, 0⟩
+
+def OrthonormalF (t1 t2 n : V3F K) : Prop :=
+  V3F.normSq t1 = 1 ∧ V3F.normSq t2 = 1 ∧ V3F.normSq n = 1
+    ∧ V3F.dot t1 t2 = 0 ∧ V3F.dot t1 n = 0 ∧ V3F.dot t2 n = 0
+
+theorem unitF_normSq (sq : K → K) (v : V3F K) (h0 : V3F.normSq v ≠ 0)
+    (hs : IsSqrtAt sq (V3F.normSq v)) : V3F.normSq (unitF sq v) = 1 := by
+  have hs0 : sq (V3F.normSq v) ≠ 0 := by
+    intro h; unfold IsSqrtAt at hs; rw [h] at hs; exact h0 (by rw [← hs]; ring)
+  have e : V3F.normSq (unitF sq v)
+      = (1 / sq (V3F.normSq v)) * (1 / sq (V3F.normSq v)) * V3F.normSq v := by
+    simp only [unitF, V3F.normSq, V3F.dot, V3F.smul]; ring
+  rw [e]
+  have : (1 / sq (V3F.normSq v)) * (1 / sq (V3F.normSq v)) * (sq (V3F.normSq v) * sq (V3F.normSq v)) = 1 := by
+    field_simp
+  unfold IsSqrtAt at hs
+  rw [hs] at this
+  exact this
+
+theorem dotF_smul_left (k : K) (a b : V3F K) : V3F.dot (V3F.smul k a) b = k * V3F.dot a b := by
+  simp only [V3F.dot, V3F.smul]; ring
+
+theorem dotF_comm (a b : V3F K) : V3F.dot a b = V3F.dot b a := by
+  simp only [V3F.dot]; ring
+
+theorem lagrangeF (a b : V3F K) :
+    V3F.normSq (V3F.cross a b) = V3F.normSq a * V3F.normSq b - V3F.dot a b * V3F.dot a b := by
+  simp only [V3F.normSq, V3F.dot, V3F.cross]; ring
+
+theorem gsTangent1_perp (i : Fin 3) (n : V3F K) : V3F.dot (gsTangent1 i n) n = 0 := by
+  match i with
+  | 0 => simp only [gsTangent1, V3F.dot]; ring
+  | 1 => simp only [gsTangent1, V3F.dot]; ring
+  | 2 => simp only [gsTangent1, V3F.dot]; ring
+
+end gs
 
 end PorepyVerif.C32
